@@ -27,7 +27,8 @@ from pathlib import Path
 from ..loader import repo_root
 
 V = Path(__file__).resolve().parent.parent.parent
-PRESERVING = ['reformat', 'rename-locals', 'augassign', 'flip-compare', 'invert-if', 'noise', 'kwargs']
+PRESERVING = ['reformat', 'rename-locals', 'augassign', 'flip-compare', 'invert-if', 'noise', 'kwargs', 'extract-locals',
+              'inline-locals']
 PY = '/venv/bin/python'
 
 
@@ -49,7 +50,7 @@ def _run_check(prop: str, tree: Path, evdir: Path):
             keys |= {x['key'] for x in json.load(open(f))['findings']}
     except Exception:
         pass
-    rules = sorted(set(re.findall(r'\s(C\d\d-R[\w/]+)\s', r.stdout)))
+    rules = sorted(set(re.findall(r'\s(C\d\d-[RMO][\w/]+)\s', r.stdout)))
     return r.returncode, keys, rules, r.stdout.strip().split('\n')[-1][:200]
 
 
